@@ -12,7 +12,7 @@ FUNCTIONS = ['emd.cycles.get_cycle_stat', 'emd._cycles_support.get_cycle_stat_fr
              'emd.support.ensure_vector / ensure_equal_dims']
 BOUNDS = {
     'quick': 'get_cycle_stat: every label vector over N <= 5 samples with labels 0..K-1 in temporal order and -1 gaps anywhere, also inside a cycle '
-             '(symbolic gap/break flags), symbolic real values, functions {mean,max,sum,len,first,last-first}, both output modes; '
+             '(symbolic gap/break flags), symbolic real values, functions {mean,max,sum,len,first,last-first}, both output modes; one fixed labelling of 29 samples (3 cycles, gaps between and inside) for order-sensitive functions; '
              'phase_align (linear kind): two cycles of 2-3 samples, symbolic strictly increasing phases, x = a*phase+b with '
              'a,b from a small concrete grid, npoints in {2,4}; bin_by_phase: N <= 3 symbolic phases and values, nbins in {2,3,4}',
     'thorough': 'get_cycle_stat N <= 6; phase_align cycles of up to 4 samples, npoints {2,4,6}; bin_by_phase N <= 4, nbins 2..5',
@@ -21,7 +21,7 @@ OUTSIDE = 'long cycles, non-linear interpolation kinds and non-linear functions 
           'variance outputs of bin_by_phase, augmented mode'
 ASSUMPTIONS = ['label vectors: labels 0..K-1 in temporal order, every label present, arbitrary -1 gaps (also interrupting a cycle); interleaved/revisited labels are outside',
                'interp1d(linear, extrapolate) modelled as piecewise-linear interpolation (validated by concrete replays)']
-REQUIRED_CLASSES = ['stat:has-gap', 'stat:two-cycles', 'stat:cycle-resumes-after-gap', 'stat:integer-values', 'align:run', 'bin:empty-bin', 'bin:last-bin-used']
+REQUIRED_CLASSES = ['stat:has-gap', 'stat:two-cycles', 'stat:cycle-resumes-after-gap', 'stat:integer-values', 'stat:long-labelling', 'align:run', 'bin:empty-bin', 'bin:last-bin-used']
 EXPECTED_LABELS = ['stat-never-raises', 'stat-per-cycle', 'stat-samples-projection', 'align-never-raises', 'align-linear-exact',
                    'bin-never-raises', 'bin-means']
 BUDGET_S = {'quick': 150, 'thorough': 900}
@@ -35,6 +35,9 @@ FUNCS = {
     'first': (lambda x: x[0], lambda v: v[0]),
     'range': (lambda x: x[-1] - x[0], lambda v: v[-1] - v[0]),
 }
+
+
+LONG_LABELS = [-1] * 3 + [0] * 5 + [-1] + [0] * 4 + [-1] * 2 + [1] * 8 + [2] * 6
 
 
 def _max(v):
@@ -54,6 +57,9 @@ def configs(tier):
     # integer-dtype values: the statistic is the function's value (a mean of counts is not a count)
     for n in ((4,) if tier == 'quick' else (4, 5, 6)):
         out.append(('stat-N%d-mean-int-values' % n, {'kind': 'stat', 'N': n, 'func': 'mean', 'int_values': True}))
+    # a long fixed labelling (29 samples, gaps between and inside cycles): the samples must reach the function in time order
+    for fn in (('first', 'range') if tier == 'quick' else ('first', 'range', 'mean', 'max')):
+        out.append(('stat-long-fixed-labels-%s' % fn, {'kind': 'stat', 'N': 29, 'func': fn, 'fixed_labels': True}))
     lens = [(2, 2), (3, 2), (2, 3)] if tier == 'quick' else [(2, 2), (3, 2), (2, 3), (3, 3), (4, 2)]
     for la, lb in lens:
         for npnt in ((2, 4) if tier == 'quick' else (2, 4, 6)):
@@ -100,7 +106,11 @@ def harness(h):
     kind = h.params['kind']
     if kind == 'stat':
         N = h.params['N']
-        labels, ncyc = label_vector(h, N)
+        if h.params.get('fixed_labels'):
+            labels, ncyc = list(LONG_LABELS), 3
+            h.note('stat:long-labelling')
+        else:
+            labels, ncyc = label_vector(h, N)
         if ncyc == 0:
             return
         if h.params.get('int_values'):
